@@ -798,6 +798,55 @@ def rule_r14(ctx) -> RuleResult:
     return rr
 
 
+# token handlers of the pinned tree that open a node, confirmed by reading: each closes the lists opened at the beginning
+# of a line before it pushes (13 of the 16 handlers that push; the other three are the reasoned exceptions below)
+CBL_BEFORE_PUSH = ("text_fn", "hline_fn", "subtitle_start_fn", "italic_fn", "bold_fn", "url_fn", "magic_fn", "table_start_fn",
+                   "table_caption_fn", "table_hdr_cell_fn", "table_row_fn", "table_cell_fn", "magicword_fn")
+CBL_EXCEPTIONS = {
+    "list_fn": "manages the open lists itself (pop_until_nth_list)",
+    "double_vbar_fn": "pushes only a TABLE_ROW directly under an open TABLE; the cell is opened by table_cell_fn / table_hdr_cell_fn, which close the lists",
+    "tag_fn": "decides per tag: inline HTML leaves the lists open on purpose (`# do not close_begline_lists`)",
+}
+
+
+def rule_r15(ctx) -> RuleResult:
+    """A handler that opens a node under a list item left open from the previous line, and then hands its text to text_fn,
+    has that node popped by text_fn's own close_begline_lists(); its trailing _parser_pop() then pops one level too many --
+    down to an empty parser stack (IndexError out of parse(), seed C01-3A).  Inferred from the 13 conforming handlers, confirmed
+    by reading, frozen above: close_begline_lists(ctx) is called on every path before the first _parser_push."""
+    from ..core.flow import dominating_calls
+
+    rr = RuleResult("C01.R15", "token handlers close begin-of-line lists before they open a node", min_instances=10)
+    m = ctx.index.mod("parser")
+    for name in CBL_BEFORE_PUSH:
+        dotted = "parser." + name
+        f = ctx.fn(dotted)
+        res = dominating_calls(f, lambda n: isinstance(n, ast.Call) and unparse(n.func) == "close_begline_lists",
+                               lambda n: isinstance(n, ast.Call) and unparse(n.func) == "_parser_push")
+        if not res:
+            # the handler no longer pushes itself (delegates): nothing to demand
+            rr.informational.append({"handler": name, "note": "no _parser_push left in this handler"})
+            continue
+        for call, dominated in res:
+            if dominated:
+                rr.ok(dotted, "close_begline_lists precedes " + unparse(call)[:50])
+            else:
+                rr.bad(Finding("C01.R15", P.PARSER, dotted, unparse(call)[:60],
+                               "a path reaches this push without close_begline_lists(ctx): with a list item open from the previous line the "
+                               "node is opened inside it, popped again by the nested text_fn, and the handler's own pop then empties the parser stack",
+                               call.lineno))
+    others = []
+    for q, f in m.funcs.items():
+        if "." in q or q in CBL_BEFORE_PUSH or q in CBL_EXCEPTIONS:
+            continue
+        if q.endswith("_fn") and any(isinstance(c, ast.Call) and unparse(c.func) == "_parser_push" for c in walk_no_nested(f)):
+            others.append(q)
+    if others:
+        rr.informational.append({"handlers_not_in_the_frozen_table": others})
+    rr.instances["exceptions"] = CBL_EXCEPTIONS
+    return rr
+
+
 def run(ctx) -> list:
     return [rule_r1(ctx), rule_r2(ctx), rule_r3(ctx), rule_r4(ctx), rule_r5(ctx), rule_r6(ctx), rule_r7(ctx), rule_r8(ctx),
-            rule_r9(ctx), rule_r10(ctx), rule_r11(ctx), rule_r12(ctx), rule_r13(ctx), rule_r14(ctx)]
+            rule_r9(ctx), rule_r10(ctx), rule_r11(ctx), rule_r12(ctx), rule_r13(ctx), rule_r14(ctx), rule_r15(ctx)]
